@@ -327,7 +327,13 @@ def task_shape(shape, second=0, seed=0):
             samples.append(dict(shape=tag, sections=sections_written, file=[repr(l)[:120] for l in fs.files['m1.dat'][:6]]))
         compare(cmp, dat, dat2, shape)
         flush()
-        guarded('second write', lambda: dat2.write('m2.dat', 'MESH2' if meshfile else '', **kw))
+        # the re-read object is written as it is: which sections are extra precision and whether
+        # they are echoed in the main file is state the reader has to recover from the files
+        if shape.get('xp'):
+            ob(list(dat2.extra_precision) == list(dat.extra_precision), 'xp-state: extra-precision sections recovered on reading')
+            ob(bool(dat2.echo_extra_precision) == bool(dat.echo_extra_precision), 'xp-state: echo flag recovered on reading')
+            flush()
+        guarded('second write', lambda: dat2.write('m2.dat', 'MESH2' if meshfile else ''))
         ob(files_equal(fs.files['m1.dat'], fs.files['m2.dat'], True), 'rewrite: second data file equals the first up to trailing blanks')
         if meshfile: ob(files_equal(fs.files['MESH'], fs.files['MESH2'], True), 'rewrite-mesh: second MESH file equals the first up to trailing blanks')
         if shape.get('xp'): ob(files_equal(fs.files['m1.pdat'], fs.files['m2.pdat'], True), 'rewrite-xp: second extra-precision file equals the first')
@@ -336,7 +342,7 @@ def task_shape(shape, second=0, seed=0):
             flush()
             compare(cmp, dat2, dat3, shape, exact=True, where='cycle2 ')
             flush()
-            guarded('third write', lambda: dat3.write('m3.dat', 'MESH3' if meshfile else '', **kw))
+            guarded('third write', lambda: dat3.write('m3.dat', 'MESH3' if meshfile else ''))
             ob(files_equal(fs.files['m2.dat'], fs.files['m3.dat'], False), 'cycle: third data file equals the second byte for byte')
             if meshfile: ob(files_equal(fs.files['MESH2'], fs.files['MESH3'], False), 'cycle-mesh: third MESH file equals the second')
         flush()
